@@ -48,6 +48,10 @@ func genC03(r *Rng) *Plan {
 	if r.Chance(1, 3) {
 		opts["skip_auth_preflight"] = true
 	}
+	if r.Chance(1, 3) {
+		// what the backend receives (identity headers, cookies) does not depend on whether requests are signed
+		opts["skip_request_signing"] = true
+	}
 	cfg.Routes = []Route{routeFor(1, opts)}
 	if r.Chance(1, 2) {
 		// a deployment has several upstreams, each with its own skip list (or none): what one upstream lets
@@ -396,6 +400,12 @@ func genC13(r *Rng) *Plan {
 		cfg.Routes = append(cfg.Routes, Route{Service: "dyn2", Type: "rewrite", From: `^foo\.(.*)\.sso\.sim$`, To: "foo-$1.back2.sim",
 			Backend: []string{"foo-dyn.back2.sim", "foo-x.back2.sim"}, Options: map[string]any{"allowed_email_domains": []string{"other.org"}}})
 	}
+	unanchored := r.Chance(1, 3)
+	if unanchored {
+		// a pattern written without anchors matches anywhere inside the Host, as the regular expression says
+		cfg.Routes = append(cfg.Routes, Route{Service: "pay", Type: "rewrite", From: `payments--(.*)\.sso\.sim`, To: "pay-$1.back3.sim",
+			Backend: []string{"pay-eu.back3.sim", "stage-pay-eu.back3.sim"}, Options: map[string]any{"allowed_email_domains": []string{"example.com"}}})
+	}
 	if rw >= 2 && r.Chance(1, 3) {
 		// a large deployment: the rewrite routes come first in the document and many simple routes follow; "the first
 		// rewrite route whose pattern matches, in the order the configuration resolves them" whatever the size
@@ -441,6 +451,9 @@ func genC13(r *Rng) *Plan {
 		// other spellings of names a rewrite pattern matches: patterns are matched as written, so these match nothing —
 		// whatever was requested before
 		"FOO.DYN.SSO.SIM", "foo.DYN.sso.sim", "bar.dyn.SSO.sim", "FOO.X.SSO.SIM"}
+	if unanchored {
+		hosts = append(hosts, "payments--eu.sso.sim", "stage-payments--eu.sso.sim", "stage-payments--eu.sso.sim", "payments--eu.sso.sim")
+	}
 	users := []string{"alice@example.com", "bob@example.com", "carol@other.org"}
 	if twinGroups {
 		// … is then removed from one upstream's groups; both sessions come up for revalidation in overlapping
